@@ -99,7 +99,10 @@ structure Shape where
   des : Option Nat
 deriving Repr
 
-/-- the first statements: ports of the implementation, its output lines, the designated cell -/
+/-- the first statements: ports of the implementation, its output lines, the designated cell.  When the walk from the
+    first output ends at a PORT of the implementation (feed-through cell `input A -> fork -> output X`) the implementation
+    has no designated cell (repair of D32: a port cannot stand for the instance, its line into the implementation is
+    replaced by the instance's own line) -/
 def implShape (m : NNet) : Option Shape :=
   let inPorts := m.net.io.filter fun p => (m.net.node p).ins.length == 0
   let outPorts := m.net.io.filter fun p => (m.net.node p).ins.length != 0
@@ -108,7 +111,8 @@ def implShape (m : NNet) : Option Shape :=
   let outLines := outL.filterMap id
   let d0 : Option (Option Nat) := match outLines.head? with
     | none => some none
-    | some l0 => (walkDesignated m (m.net.nodes.size + 1) (m.net.line l0).driver).map some
+    | some l0 => (walkDesignated m (m.net.nodes.size + 1) (m.net.line l0).driver).map fun n =>
+        if m.net.io.contains n then none else some n             -- `None if n in ios else n` (repair of D32)
   match d0 with
   | none => none
   | some d0 =>
@@ -250,11 +254,36 @@ def regularB (h : NNet) (c : Nat) (m : NNet) : Bool :=
       !p.2.isSome || !((m.net.node p.1).outs.length == 0)) &&
     (h.net.node c).outs.length == sh.outLines.length && (h.net.node c).outs.all (·.isSome)
 
+/-- one iteration of the loop that makes the outputs of the copied forks dense again (an unconnected output pin of the
+    instance may leave a `None` gap): `if n.kind == '__fork__' and any(l is None for l in n.outs): n.outs = [l for l in
+    n.outs if l is not None]; for i, l in enumerate(n.outs): l.driver_pin = i` -/
+def densifyNode (net : Net) (v : Nat) : Net :=
+  if (net.node v).isFork && (net.node v).outs.any (·.isNone) then
+    let outs2 : List (Option Nat) := ((net.node v).outs.filterMap id).map some
+    { net with nodes := net.nodes.modify v fun n => { n with outs := outs2 }
+               lines := renumberDpins net.lines outs2 0 }
+  else net
+
+/-- `for n in node_map.values(): ...` (each iteration touches one node and the lines it drives, so the order of the values
+    does not matter for the result) -/
+def densify (net : Net) (map : Array (Option Nat)) : Net := (map.toList.filterMap id).foldl densifyNode net
+
+/-- some copied fork has a gap after the connecting loops -/
+def needsDensify (net : Net) (map : Array (Option Nat)) : Bool :=
+  (map.toList.filterMap id).any fun v => (net.node v).isFork && (net.node v).outs.any (·.isNone)
+
+/-- no copied fork has a gap after the connecting loops (then the loop above changes nothing): true whenever the forks of
+    the implementation are gap-free and every output pin of the instance is connected -/
+def denseB (h : NNet) (c : Nat) (m : NNet) : Bool :=
+  match substituteCore h c m with
+  | some (h5, map, _) => !(needsDensify h5.net map)
+  | none => true
+
 def substitute (h : NNet) (c : Nat) (m : NNet) : Option NNet :=
   match substituteCore h c m with
   | none => none
   | some (h5, map, dang) =>
-    removeDangling (dang.length + h5.net.lines.size + 1) h5 (map.toList.filterMap id) dang
+    removeDangling (dang.length + h5.net.lines.size + 1) { h5 with net := densify h5.net map } (map.toList.filterMap id) dang
 
 /-! ### `resolve_tlib_cells(tlib)` (circuit.py:448-455) -/
 /-- `tlib.cells`: kind ↦ implementation circuit -/
